@@ -233,25 +233,35 @@ theorem present_keys_perm (S : List Labels) (key : Labels → Labels) (xs : IdVe
 
 /-- **C04, the scalar-table aggregation of the engine is the reference aggregation**: at every
 step, for every grouping (`by` / `without`, any label list), every occupancy pattern and every
-aggregator of the scalar tables other than `sum`/`avg` (whose accumulators differ in rounding
-only), what the engine emits - groups formed statically from `Series()`, accumulators fed in
+aggregator whose accumulator computes the reference reduction on non-empty groups (`hR`: all of
+them outright except `sum` and `avg`, which start from an empty group: `engReduce_sum` under
+`0 + v = v`, `engReduce_avg` under the counting laws), what the engine emits - groups formed statically from `Series()`, accumulators fed in
 sample order - read through its series list is a permutation of the reference result. -/
 theorem agg_perm (child : OpSem V) (op : String) (w : Bool) (g : List String) (param : Option (OpSem V))
     (t : Int) (xs : IdVec V) (p : V)
     (hx : child.step t = .ok xs) (hv : ∀ x ∈ xs, x.1 < child.series.length)
     (hvec : (!w && g.isEmpty && vectorizedAggs.contains op) = false)
     (hpar : (match param with | some po => scalarOf po t | none => (pure nan : Except Err V)) = .ok p)
-    (hop : (op == "topk" || op == "bottomk") = false) (h1 : op ≠ "sum") (h2 : op ≠ "avg") :
+    (hop : (op == "topk" || op == "bottomk") = false)
+    (hR : ∀ vals : List V, vals ≠ [] → engReduce op p vals = aggReduce op p vals) :
     ∃ ys out, (engAggregate op w g param child).step t = .ok ys ∧
       aggregate op w g p (denote child.series xs) = .ok out ∧
       (denote (engAggregate op w g param child).series ys).Perm out := by
   have houts := outs_eq_keys child.series w g
-  have hR : engReduce op p = aggReduce op p := by
-    funext vals
-    unfold engReduce
-    split <;> simp_all
   have hcore := eng_groups_core child.series (groupKey w g) xs (engReduce op p) hv
-  rw [hR] at hcore
+  have hcore' : (((dedup (child.series.map (groupKey w g))).filter fun k =>
+        !(msOf child.series (groupKey w g) xs k).isEmpty).map fun k =>
+          (k, engReduce op p ((msOf child.series (groupKey w g) xs k).map (·.2))))
+      = (((dedup (child.series.map (groupKey w g))).filter fun k =>
+        !(msOf child.series (groupKey w g) xs k).isEmpty).map fun k =>
+          (k, aggReduce op p ((msOf child.series (groupKey w g) xs k).map (·.2)))) := by
+    apply List.map_congr_left
+    intro k hk
+    have hne := (List.mem_filter.mp hk).2
+    rw [hR]
+    intro hnil
+    rw [List.map_eq_nil_iff] at hnil
+    simp [hnil] at hne
   unfold engAggregate
   rw [if_neg (by simpa using hvec)]
   refine ⟨(List.range (staticGroups (groupKey w g) (groupLabels w g) child.series).2.length).filterMap fun gi =>
@@ -267,10 +277,10 @@ theorem agg_perm (child : OpSem V) (op : String) (w : Bool) (g : List String) (p
     | some po =>
       simp only at hpar
       simp only [hx, hpar, bind, Except.bind, pure, Except.pure]
-  · simp only [houts, hR]
+  · simp only [houts]
     have hg1 : (staticGroups (groupKey w g) (groupLabels w g) child.series).1
         = child.series.map fun ls => (dedup (child.series.map (groupKey w g))).idxOf (groupKey w g ls) := rfl
-    rw [hg1, hcore]
+    rw [hg1, hcore, hcore']
     exact (present_keys_perm child.series (groupKey w g) xs hv).map _
 
 end PromqlVerif
